@@ -51,19 +51,25 @@ def _worker(args):
            "notes": c.notes, "vacuous": []}
     try:
         lib = dict(LIB)
-        if hasattr(mod, "LIB"):
+        # a contract borrowed from another property's module brings its own tables: the host module's overrides must not leak into it
+        home = getattr(c, "home", None)
+        if home is not None:
+            hm = importlib.import_module("contracts." + home)
+            lib.update(getattr(hm, "LIB", {}))
+        elif hasattr(mod, "LIB"):
             lib.update(mod.LIB)
         callees = getattr(c, "callees", None) or getattr(mod, "CALLEES", {})
         if getattr(c, "lib", None):
             lib.update(c.lib)
-        res = verify.verify_function(prop, c, callees, lib, hooks=getattr(c, "hooks", None) or getattr(mod, "HOOKS", None))
+        res = verify.verify_function(prop, c, callees, lib, hooks=getattr(c, "hooks", None) or getattr(importlib.import_module("contracts." + home) if home is not None else mod, "HOOKS", None))
         out["src"] = res.fs.describe()
         out["error"] = res.error
         out["paths"] = res.paths
         out["trusted"] = sorted(getattr(res, "trusted", []))
         axioms = []
-        if hasattr(mod, "AXIOMS"):
-            axioms = mod.AXIOMS(c) if callable(mod.AXIOMS) else list(mod.AXIOMS)
+        amod = importlib.import_module("contracts." + home) if home is not None else mod
+        if hasattr(amod, "AXIOMS"):
+            axioms = amod.AXIOMS(c) if callable(amod.AXIOMS) else list(amod.AXIOMS)
         for vc in res.vcs:
             vc.hyps = list(axioms) + vc.hyps
             d = smt.discharge(vc, timeout_ms, cross=cross)
